@@ -420,7 +420,7 @@ def sched_part(ctx, pid, cov, sets, directed=True, extra=()):
 
 def check_C02():
     ctx = Ctx("C02"); cov = {}
-    broken = proof_part(ctx, "props/C02.v", ["proofs/C02_good.v", "proofs/C02_methods.v", "proofs/C02_lin.v", "proofs/C01_sim.v", "proofs/C01_ops.v", "Lin.v", "proofs/CX_trans.v", "proofs/CX_compose.v", "proofs/CX_product.v", "proofs/CX_mapof.v", "proofs/CX_map.v", "proofs/X_linearizable.v", "proofs/XS_linearizable.v", "XMachine.v", "XMachineS.v"], cov)
+    broken = proof_part(ctx, "props/C02.v", ["proofs/C02_good.v", "proofs/C02_methods.v", "proofs/C02_lin.v", "proofs/C01_sim.v", "proofs/C01_ops.v", "Lin.v", "proofs/CX_trans.v", "proofs/CX_compose.v", "proofs/CX_product.v", "proofs/CX_mapof.v", "proofs/CX_map.v", "proofs/C02_methods_of.v", "proofs/C02_lin_gen.v", "proofs/C02_lin_of.v", "proofs/CX_cacheof.v", "proofs/X_linearizable.v", "proofs/XS_linearizable.v", "XMachine.v", "XMachineS.v"], cov)
     n = N(ctx, 2500, 40000)
     sched_part(ctx, "C02", cov, [("Cache", n, []), ("CacheOf_int", n, []), ("CacheOf_str", n // 2, ["-sched", "pct"]),
                                  ("Cache", n // 2, ["-threads", "4", "-ops", "4", "-sched", "mix"])])
@@ -636,7 +636,7 @@ def check_C16():
 
 def check_C04():
     ctx = Ctx("C04"); cov = {}
-    broken = proof_part(ctx, "props/C04.v", ["proofs/X_basic.v", "proofs/X_inv.v", "proofs/X_c13.v", "proofs/X_inst.v", "proofs/X_own.v", "proofs/X_chain.v", "proofs/X_c04.v", "proofs/X_lin.v", "proofs/X_resize.v", "proofs/X_swar.v", "proofs/X_atomic.v", "proofs/X_range.v", "proofs/X_loadhit.v", "proofs/X_stale.v", "proofs/X_linpoints.v", "proofs/X_linearizable.v", "Lin.v", "proofs/C11_table.v", "proofs/C11_lists.v", "XMachine.v", "XExec.v", "TableModel.v"], cov)
+    broken = proof_part(ctx, "props/C04.v", ["proofs/X_basic.v", "proofs/X_inv.v", "proofs/X_c13.v", "proofs/X_inst.v", "proofs/X_own.v", "proofs/X_chain.v", "proofs/X_c04.v", "proofs/X_lin.v", "proofs/X_resize.v", "proofs/X_swar.v", "proofs/X_atomic.v", "proofs/X_range.v", "proofs/X_loadhit.v", "proofs/X_stale.v", "proofs/X_linpoints.v", "proofs/X_linearizable.v", "proofs/X_linearizable2.v", "Lin.v", "proofs/C11_table.v", "proofs/C11_lists.v", "XMachine.v", "XExec.v", "TableModel.v"], cov)
     n = N(ctx, 1500, 25000)
     from . import solo
     fam = solo.resize_families(ctx.tier, [("MapOf_int", "default"), ("MapOf_int", "const"), ("MapOf_str", "default")])
